@@ -404,7 +404,8 @@ def write_replay(pid, payload):
 
 
 def write_evidence(pid, ev):
-    d = os.path.join(VERIF, "evidence")
+    # runs against a patched scratch tree (bin/vseed) must not overwrite the evidence of the registered checks
+    d = os.environ.get("VERIF_EVIDENCE_DIR") or os.path.join(VERIF, "evidence")
     os.makedirs(d, exist_ok=True)
     with open(os.path.join(d, "%s.json" % pid), "w") as f:
         json.dump(ev, f, indent=1, sort_keys=True)
